@@ -208,6 +208,17 @@ class Exec:
                 if isinstance(n.op, ast.And):
                     return all(vs)
                 return any(vs)
+            def is_intlike(v):
+                return (is_sym(v) and z3.is_int(v)) or (isinstance(v, int) and not isinstance(v, bool))
+            if any(is_intlike(v) for v in vs):
+                # Python's value semantics: `a or b` is a if a is truthy else b (and dually); integers only
+                if not all(is_intlike(v) for v in vs):
+                    raise UnsupportedSyntax('and/or over mixed integer and non-integer operands')
+                acc = _int(vs[-1])
+                for v in reversed(vs[:-1]):
+                    v = _int(v)
+                    acc = z3.If(v != 0, v, acc) if isinstance(n.op, ast.Or) else z3.If(v != 0, acc, v)
+                return acc
             vs = [v if is_sym(v) else z3.BoolVal(bool(v)) for v in vs]
             return z3.And(*vs) if isinstance(n.op, ast.And) else z3.Or(*vs)
         if isinstance(n, ast.UnaryOp) and isinstance(n.op, ast.Not):
